@@ -111,6 +111,7 @@ template <class M> void battery_c10(const M &m, const Ctx &ctx, RunStats &st, ui
         int a, c;
         if (pairs <= 150) { a = lv[k / lv.size()]; c = lv[k % lv.size()]; } else { a = lv[rng.below(lv.size())]; c = lv[rng.below(lv.size())]; }
         HalfEdgeHandle h = m.find_halfedge(VertexHandle(a), VertexHandle(c));
+        if (m.halfedge(VertexHandle(a), VertexHandle(c)) != h) ctx.fail(OW, "deprecated-alias", "halfedge(v,v) differs from find_halfedge");
         int cnt = edges_between(a, c);
         if (h.is_valid()) {
             if (h.idx() >= 2 * b.ne || !b.elive[h.idx() / 2] || b.from(h.idx()) != a || b.to(h.idx()) != c) ctx.fail(OW, "find_halfedge-unsound", "(" + std::to_string(a) + "," + std::to_string(c) + ") -> " + std::to_string(h.idx()));
@@ -144,6 +145,7 @@ template <class M> void battery_c10(const M &m, const Ctx &ctx, RunStats &st, ui
         // find_halfface: "only the first three vertices are checked"
         if (no_dup_edges(vs, 3)) {
             HalfFaceHandle r = m.find_halfface(vv);
+            if (m.halfface(vv) != r || m.halfface_extensive(vv) != m.find_halfface_extensive(vv)) ctx.fail(OW, "deprecated-alias", "halfface(vertices) / halfface_extensive differ from find_*");
             bool exists = false, ambiguous = false;
             for (int f : lf) for (int s = 0; s < 2; ++s) { std::vector<int> c = vcycle(2 * f + s); if (has_repeat(c)) { ambiguous = true; continue; } if (consecutive_in(2 * f + s, vs[0], vs[1], vs[2])) exists = true; }
             if (r.is_valid()) {
